@@ -90,6 +90,16 @@ def run(cx):
     rng = random.Random(cx.seed * 8191 + 8)
     n = cx.pick(300, 6000)
     lines = ["C %d %d %d" % (i, i if i < 32 else rng.randrange(21), rng.randrange(1 << 30)) for i in range(n)]
+    # LARGE re-imports: the exporter's mesh padded with unused vertices so that the importer's vertex count straddles
+    # 2^18 (the only size threshold on the import/export path: CreateHalfedges switches from sorting to bucketing there;
+    # the other size constants in impl.cpp/sort.cpp/impl.h are autoPolicy sequential/parallel cut-offs).  Templates with
+    # property seams (merge vectors), runs, tangents and plain meshes.
+    K = 1 << 18
+    big = [(6, K - 1), (6, K), (6, K + 1), (7, K + 7), (11, K + 7), (0, K + 7), (4, K + 7), (20, K + 7), (7, K - 3)]
+    if not cx.quick():
+        big += [(t, K + 7) for t in range(21)] + [(6, 2 * K + 1), (7, 3 * K)]
+    for j, (tmpl, pad) in enumerate(big):
+        lines.append("C %d %d %d %d" % (n + j, tmpl, 4242 + j, pad))
     kl = lambda l: l.split()[1]
     ko = lambda l: l.split()[1] if l.startswith("C ") else None
     out, crashes = vp.run_cases(exe, lines, kl, ko, timeout=1500, max_restarts=4)
@@ -118,6 +128,7 @@ def run(cx):
             if d["runs"] >= 2 or d["merges"] > 0 or d["tangents"] or d.get("empties", 0):
                 nontriv += 1
         case = lines[int(cid)]
+        dist["large_reimport"] = dist.get("large_reimport", 0) + (d.get("padded", 0) >= (1 << 18))
         if d.get("st2", 0) != 0:
             if d.get("empties", 0) > 0 and d["st2"] == 9:
                 cx.violation("empty-run-rejected",
@@ -129,7 +140,10 @@ def run(cx):
                              "re-import with InvalidConstruction while the original refines with status %d" % (d["tan_nonfinite"], d["refine_st1"]),
                              {"case": case, "program": d["prog"], "line": l})
             else:
-                cx.violation("reimport-status", "re-import of the export has status %d" % d["st2"], {"case": case, "line": l})
+                big_in = d.get("padded", 0) >= (1 << 18)
+                cx.violation("large-reimport-status" if big_in else "reimport-status",
+                             "re-import of the export%s has status %d" % (" (padded with unused vertices to %d vertices: large-mesh import path)" % d["padded"] if big_in else "", d["st2"]),
+                             {"case": case, "line": l})
             continue
         bad = [f for f in FIELDS if d.get(f, 1) != 1]
         for f in bad:
@@ -172,7 +186,7 @@ def run(cx):
     elif obj_ok_translate:
         if not any(k.startswith("obj-") for k, _, _ in cx.violations):
             cx.broke("obligation:obj_format_ok", "WriteOBJ's precision/notation does not guarantee 17 significant digits (%r) and no lossy round trip was found" % obj_format_ok)
-    cx.cov.update({"evaluations": n, "distinct_nontrivial": nontriv,
+    cx.cov.update({"evaluations": len(lines), "distinct_nontrivial": nontriv,
                    "rule": "seeded programs from 21 templates; non-trivial = >= 2 runs or merge vectors (property seam) or tangents or empty runs; distinct by (template, triangles, runs, merges)",
                    "distribution": dist, "fields_compared": FIELDS, "field_failures": per_field_fail,
                    "obj_roundtrips_lossy_below_1e-3": obj_lossy, "obj_roundtrips_lossy_other": obj_other})
